@@ -339,7 +339,7 @@ fn take_missed() -> u32 {
     MISSED.with(|m| m.replace(0))
 }
 
-fn boundary_table() -> Vec<String> {
+pub fn boundary_table() -> Vec<String> {
     let mut v: Vec<String> = Vec::new();
     for p in [52u32, 53, 54, 62, 63, 64] {
         let base: u128 = 1u128 << p;
@@ -375,6 +375,13 @@ fn boundary_table() -> Vec<String> {
             v.push(format!("{m}E-{e}"));
             v.push(format!("{m}e+{e}"));
         }
+    }
+    // hex literals whose first 16 (17) characters are all decimal digits, or all zeros
+    for t in [
+        "1234567890123456x", "12345678901234567x", "123456789012345x", "9999999999999999X", "0000000000000000FFx", "00000000000000000ffx",
+        "000000000000000000000000000000001x", "0000000000000000x", "1234567890123456", "01234567890123456789x",
+    ] {
+        v.push(t.to_string());
     }
     // decimal strings at and next to the midpoint of two adjacent doubles: the rounding is decided
     // far beyond the 17th significant digit (a parser that gives up early is 1 ulp off)
